@@ -17,7 +17,7 @@ Theorem C17_negamax_balanced : forall pollp stop_at bypass n g d a b (e : c_env)
   match chess_negamax pollp stop_at bypass n g d a b e with
   | Val _ e' => ply e' = ply e /\ ridx e' = ridx e /\ firstn (ridx e) (rtab e') = firstn (ridx e) (rtab e) /\
                 length (rtab e') = length (rtab e) /\ (nodes e <= nodes e')%N /\ (npolls e <= npolls e')%nat /\
-                (stopping e = true -> stopping e' = true)
+                (stopping e = true -> stopping e' = true) /\ ((forall k, stop_at k = false) -> stopping e' = stopping e)
   | OutOfFuel => False
   end.
 Proof.
@@ -32,7 +32,7 @@ Theorem C17_quiescence_balanced : forall pollp stop_at n g a b (e : c_env),
   match chess_quiescence pollp stop_at n g a b e with
   | Val _ e' => ply e' = ply e /\ ridx e' = ridx e /\ firstn (ridx e) (rtab e') = firstn (ridx e) (rtab e) /\
                 length (rtab e') = length (rtab e) /\ (nodes e <= nodes e')%N /\ (npolls e <= npolls e')%nat /\
-                (stopping e = true -> stopping e' = true)
+                (stopping e = true -> stopping e' = true) /\ ((forall k, stop_at k = false) -> stopping e' = stopping e)
   | OutOfFuel => False
   end.
 Proof.
